@@ -313,7 +313,7 @@ def run(tier):
     k_broken = bool(mism or mism2 or mism3 or err or err2 or err3)
     k_detail = {"selector_mismatches": [strings[i] for i in mism[:20]],
                 "virtual_split_mismatches": [[vstrings[i], vsp[i]] for i in mism3[:20]],
-                "path_mismatches": [pairs[pidx[i]] for i in mism2[:20]], "errors": [err, err2]}
+                "path_mismatches": [pairs[pidx[i]] for i in mism2[:20]], "errors": [err, err2, err3]}
     # does a disagreement exhibit the property failing on the implementation?
     # direct statement on the implementation, independent of the model: a selector that
     # contains a documented climbing substring never passes the real filter
